@@ -71,6 +71,11 @@ def jobs(tier, seed):
                        'smax': 2, 'burst': [0, 1, 1, 1]}})
     js.append({'harness': 'sp', 'weight': 15,
                'cfg': {'kind': 'SP', 'rate': 8, 'table': {0: 1, 1: 2}, 'flows': [0, 1, 1], 'sorts': 'int', 'smin': 0, 'smax': 2}})
+    # longer workloads, few timing variables: two bursts of four packets
+    for t in tables:
+        js.append({'harness': 'sp', 'weight': 40, 'opts': {'max_paths': 20000},
+                   'cfg': {'kind': 'SP', 'rate': 8, 'table': t, 'flows': [0, 1, 0, 1, 1, 0, 0, 1], 'sorts': 'int',
+                           'burst': [0, 1, 1, 1, 0, 1, 1, 1], 'smax': 2}})
     # three priority levels
     for pat in ([0, 1, 2, 2], [2, 1, 0, 1]) if tier == 'quick' else ([0, 1, 2, 2, 1], [2, 1, 0, 1, 0], [1, 1, 2, 0, 2]):
         js.append({'harness': 'sp', 'weight': 15,
